@@ -48,11 +48,7 @@ Theorem C11_commit_xor_rollback :
      s < length (scopes (sh st)) -> s_pc (gets (sh st) s) = CFinished ->
      exists b, s_branch (gets (sh st) s) = Some b /\
        close_word (log (sh st)) s = BC :: (if b then [BCo; Co; ACo] else [BR; Ro; AR]) ++ [AC]).
-Proof.
-  split. exact decide_step. split. exact branch_stable.
-  intros progs sched s st Hs F. destruct (event_grammar progs sched s Hs) as (_ & _ & _ & _ & G).
-  destruct (G F) as (b & E & W). exists b. split; auto. fold st in W. rewrite W. destruct b; reflexivity.
-Qed.
+Proof. exact commit_xor_rollback. Qed.
 Print Assumptions C11_commit_xor_rollback.
 
 (** Close waits: the counter is always (accepted tasks not yet done) + (children whose registration
